@@ -255,6 +255,13 @@ pub fn gen_c18(rng: &mut Rng) -> Value {
         _ => steps.push(json!({"k":"api","op":"remove_hash","addr":c0,"bin":"sync","mode":"sync"})),
     }
     steps.extend(repeat_after);
+    let attached = rng.chance(1, 6);
+    if attached {
+        // (keys[2] is otherwise the key that was never written)
+        let mut ii = json!({"k":"api","op":"index_insert","key":2,"opts":{"sri":c0.clone()}});
+        set_flav(&mut ii, flav(rng));
+        steps.push(ii);
+    }
     let ops = ["copy", "copy_unchecked", "hard_link", "hard_link_unchecked", "reflink", "reflink_unchecked"];
     let n = rng.range(3, 10);
     for i in 0..n {
@@ -285,7 +292,7 @@ pub fn gen_c18(rng: &mut Rng) -> Value {
             _ => format!("$O/f{i}"),
         };
         let mut st = json!({"k":"api","op":op,"to":dest});
-        let target_key = if rng.chance(1, 8) { 2 } else { 0 }; // key 2 was never written
+        let target_key = if rng.chance(1, 8) || (attached && rng.chance(1, 2)) { 2 } else { 0 }; // key 2: never written, or attached by a raw index record
         if by_key {
             st["key"] = json!(target_key);
         } else {
@@ -870,9 +877,10 @@ pub fn gen_c19(rng: &mut Rng) -> Value {
     }
     // removals of a linked entry remove the link, never the target
     if rng.chance(1, 5) {
-        let mut rm = match rng.below(3) {
+        let mut rm = match rng.below(4) {
             0 => json!({"k":"api","op":"remove_hash","addr":{"val":0,"algo":"sha256"}}),
             1 => json!({"k":"api","op":"remove_opts","fully":true,"key":0}),
+            2 => json!({"k":"api","op":"clear"}),
             _ => json!({"k":"api","op":"remove","key":0}),
         };
         set_flav(&mut rm, flav(rng));
@@ -897,6 +905,14 @@ pub fn gen_c19(rng: &mut Rng) -> Value {
     if m >= 2 {
         let f = flav(rng);
         steps.push(json!({"k":"audit","bin":f.0,"mode":f.1,"what":["read","reader","read_hash"]}));
+    }
+    if m < 2 && len > 0 && rng.chance(1, 4) {
+        // the file changes without changing its length or its timestamps, and is linked again under the same key
+        steps.push(json!({"k":"env","act":"flip","path":"$T/t0","byte":rng.below(len),"bit":rng.below(8),"keep_mtime":true,"linked":{"val":0}}));
+        let mut l = json!({"k":"api","op":"link_to","entry":*rng.pick(&["fn","open"]),"key":0,"target":"$T/t0"});
+        set_flav(&mut l, flav(rng));
+        steps.push(l);
+        steps.extend(all_flav_audit(&["metadata", "read", "read_hash"]));
     }
     steps.push(json!({"k":"chdir","path":"$R"}));
     // the first target is gone (its link dangles); the same bytes are linked again from the twin file
